@@ -440,6 +440,7 @@ def make_dict_boundary_frames(rng, count, dinfo, name_dict=True):
         body = b''
         feats = set()
         bad = False
+        ambiguous = False
         produced = 0
         nblocks = rng.choice([1, 2, 3])
         if rng.below(3) == 0:
@@ -479,6 +480,12 @@ def make_dict_boundary_frames(rng, count, dinfo, name_dict=True):
                     feats.add('straddle' if ml > in_dict else 'exact' if ml == in_dict else 'inside-dict')
                 lits += rng.bytes(ll)
                 seqs.append((ll, ml, ov))
+                # a match that reaches into the dictionary once the frame has produced a window's worth of output:
+                # the format makes the dictionary unreachable then (this crate rejects, libzstd is lenient): no verdict
+                if ov > 3 and ov - 3 > cur and cur >= (1 << wlog) - 1:
+                    ambiguous = True
+                if ov <= 3 and cur >= (1 << wlog) - 1:
+                    ambiguous = True          # a repeat offset may point into the dictionary as well
                 cur += ml
             tail = rng.choice([0, 0, 3])
             lits += rng.bytes(tail)
@@ -522,7 +529,7 @@ def make_dict_boundary_frames(rng, count, dinfo, name_dict=True):
         if ck:
             f += (xxh64(expect) & 0xFFFFFFFF).to_bytes(4, 'little')
         out.append({'frame': f, 'content': expect, 'params': {'wlog': wlog}, 'cls': 'synthetic-dict', 'producer': 'synthetic',
-                    'features': sorted(feats), 'named': name_dict})
+                    'features': sorted(feats), 'named': name_dict, 'ambiguous': ambiguous})
     return out
 
 
